@@ -159,7 +159,7 @@ register(
     level="proof",
     streams=["ros_e19", "ros_rr", "ros_bw", "supply", "fixed_point", "steps"],
     falsifier=fals_analyses.falsify_C07,
-    partial=["timer / polling-point: proved equal to naive evaluation over the STEP offsets of the own demand (scalar WCET); the all-offset claim is proved FALSE (counterexample_K2, known finding K2); the processing-chain analysis shares the scheme (correspondence + falsifier only)",
+    partial=["timer / polling-point: proved equal to naive evaluation over the STEP offsets of the own demand (scalar WCET); the all-offset claim is proved FALSE (counterexample_K2, known finding K2); the processing-chain analysis likewise (chain_partial, through chain_is_polling_point: scalar WCETs of the last callback and of the prefix)",
              "hypotheses as in C06: exact arrival models, limit >= 1, the end of a bw subchain releases something"],
     explanation="event source, rr and bw (incl. the debug cross-check) are proved equal to naive all-offset linear-scan evaluation for all supplies; service_time = linear-scan inverse; search = linear-scan least solution.",
 )
